@@ -9,6 +9,7 @@ import JanetModel.Value.F64
 import JanetModel.Value.Struct
 import JanetModel.Value.StructLemmas
 import JanetModel.Value.SymCacheLemmas
+import JanetModel.Value.RobinPerm
 
 namespace JanetModel.Props.C03
 open JanetModel.Value
@@ -204,6 +205,24 @@ What is established instead:
     sequence with a duplicate key, a nil value, a nil key and an over-announced count (rebuild in `janet_struct_end`);
   * on the implementation: the harness checks on every run that values with the same content have identical slot
     arrays, and the model's `structOf` reproduces the implementation's slot array from several insertion orders. -/
+
+/-- **PROVED, all inputs**: structs built by `janet_struct_begin(n)` / n × `janet_struct_put` / `janet_struct_end` from the
+    same n pairs (non-nil keys and values, keys pairwise different) in ANY insertion order are the same value: identical
+    slot arrays (hence `=`, same hash, compare 0), for every capacity and every collision pattern, runs wrapping around
+    the end of the array included.  Proof: `putLoop` keeps the robin-hood invariant `RH` (the displaced pair travels on
+    with its own hash and distance), fills the first empty slot after the home slot (`putLoop_spec`); the layout with a
+    given set of entries and occupied slots is unique (`RH.unique`); two insertions commute (`ins_comm`). -/
+theorem struct_layout_canonical (kvs₁ kvs₂ : List (Slot N)) (proto : List (JVal N)) (hperm : kvs₁.Perm kvs₂)
+    (hvalid : ∀ kv ∈ kvs₁, kv.1.isNil = false ∧ kv.2.isNil = false) (hdist : DistinctKeys kvs₁) :
+    structOf kvs₁ proto = structOf kvs₂ proto := structOf_perm proto hperm hvalid hdist
+
+/-- … and therefore equal, with equal hashes, comparing as 0 -/
+theorem struct_by_content (kvs₁ kvs₂ : List (Slot N)) (proto : List (JVal N)) (hperm : kvs₁.Perm kvs₂)
+    (hvalid : ∀ kv ∈ kvs₁, kv.1.isNil = false ∧ kv.2.isNil = false) (hdist : DistinctKeys kvs₁) :
+    equals (structOf kvs₁ proto) (structOf kvs₂ proto) = true ∧ hash (structOf kvs₁ proto) = hash (structOf kvs₂ proto) ∧
+    jcompare (structOf kvs₁ proto) (structOf kvs₂ proto) = .eq := by
+  rw [struct_layout_canonical kvs₁ kvs₂ proto hperm hvalid hdist]
+  exact ⟨equals_refl _, rfl, (compare_eq_zero_iff_equals _ _).mpr (equals_refl _)⟩
 
 theorem struct_put_capacity (st : StructBuild N) (key value : JVal N) (replace : Bool) :
     (structPutExt st key value replace).slots.length = st.slots.length := structPutExt_capacity st key value replace
